@@ -1,12 +1,146 @@
 package main
 
 import (
+	"flag"
 	"fmt"
-	"golang.org/x/tools/go/packages"
+	"os"
+	"path/filepath"
+	"runtime/debug"
+	"sort"
+	"strconv"
+	"strings"
+	"time"
+
+	"golang.org/x/tools/go/ssa"
 )
 
+type propDef struct {
+	ID       string
+	Explain  string // what is decided (necessary structural conditions)
+	NotCover string // behavioural remainder, not decided
+	Run      func(c *Ctx)
+}
+
+var props = map[string]*propDef{}
+
+func register(p *propDef) { props[p.ID] = p }
+
 func main() {
-	cfg := &packages.Config{Mode: packages.LoadAllSyntax, Dir: "/repo"}
-	pkgs, err := packages.Load(cfg, "./...")
-	fmt.Println(len(pkgs), err)
+	prop := flag.String("property", "", "property id (C01..C20) or 'all'")
+	tier := flag.String("tier", "quick", "quick|thorough")
+	repo := flag.String("repo", "/repo", "repository root")
+	verif := flag.String("verif", "", "verif directory (default: parent of the binary's directory)")
+	dump := flag.String("dump", "", "debug: dump PPA paths of pkg:Func (e.g. cache:(*Target).gnmiUpdate)")
+	noSelf := flag.Bool("noselftest", false, "thorough: skip variant self-validation")
+	flag.Parse()
+	if t := os.Getenv("VERIF_TIER"); t != "" && *tier == "" {
+		*tier = t
+	}
+	seed := 0
+	if s := os.Getenv("VERIF_SEED"); s != "" {
+		seed, _ = strconv.Atoi(s)
+	}
+	if *verif == "" {
+		exe, _ := os.Executable()
+		*verif = filepath.Dir(filepath.Dir(exe))
+	}
+	start := time.Now()
+	code := 2
+	func() {
+		defer func() {
+			if r := recover(); r != nil {
+				fmt.Printf("CHECKER-PANIC: %v\n%s\n", r, debug.Stack())
+				code = 2
+			}
+		}()
+		P, err := Load(*repo, false, "")
+		if err != nil {
+			fmt.Printf("LOAD-FAILURE: %v\n", err)
+			if *prop != "" && *prop != "all" {
+				// a tree that does not type-check cannot be shown to hold the property
+				fmt.Printf("VIOLATION property=%s replay=%s\n", *prop, "(load failure, see output)")
+				code = 1
+			}
+			return
+		}
+		if *dump != "" {
+			dumpPaths(P, *dump)
+			code = 0
+			return
+		}
+		ids := []string{*prop}
+		if *prop == "all" {
+			ids = nil
+			for id := range props {
+				ids = append(ids, id)
+			}
+			sort.Strings(ids)
+		}
+		code = 0
+		for _, id := range ids {
+			pd := props[id]
+			if pd == nil {
+				fmt.Printf("unknown property %q\n", id)
+				code = 2
+				return
+			}
+			t0 := time.Now()
+			if len(ids) == 1 {
+				t0 = start
+			}
+			c := NewCtx(P, id, *tier)
+			c.Explain = pd.Explain
+			c.NotCover = pd.NotCover
+			pd.Run(c)
+			extra := map[string]interface{}{}
+			if *tier == "thorough" && !*noSelf {
+				res := selfValidate(c, *verif, *repo)
+				extra["self_validation"] = res
+				if res.Broken > 0 {
+					fmt.Printf("SELF-VALIDATION-FAILED: %d variant expectations not met for %s\n", res.Broken, id)
+					for _, l := range res.Lines {
+						fmt.Println("  " + l)
+					}
+					code = 2
+				}
+			}
+			rc := c.Finish(*verif, seed, t0, extra)
+			if rc > code {
+				code = rc
+			}
+		}
+	}()
+	os.Exit(code)
+}
+
+func dumpPaths(P *Prog, spec string) {
+	var fn *ssa.Function
+	for _, pk := range P.ModPkgs() {
+		for _, f := range P.PkgFuncs(pk) {
+			if fnName(f) == spec {
+				fn = f
+			}
+		}
+	}
+	if fn == nil {
+		fmt.Println("no such function; candidates:")
+		for _, pk := range P.ModPkgs() {
+			for _, f := range P.PkgFuncs(pk) {
+				if strings.Contains(fnName(f), spec) {
+					fmt.Println("  ", fnName(f))
+				}
+			}
+		}
+		return
+	}
+	e := &PPA{Inline: func(fr *Frame, call ssa.CallInstruction, callee *ssa.Function) bool { return callee.Parent() != nil }}
+	e.Run(fn)
+	ps := DistinctPaths(e.Paths)
+	fmt.Printf("%s: %d paths (%d distinct), truncated %d, overflow %v\n", fnName(fn), len(e.Paths), len(ps), e.Truncated, e.Overflow)
+	for i, p := range ps {
+		if i > 200 {
+			break
+		}
+		fmt.Println(" ", p.String())
+	}
 }
